@@ -43,6 +43,13 @@ RULE = ("(i) decision logic: a REAL Reweighter on a real StateManager whose _com
         "a second run() with a larger n_total on the same sampler — with the observers of (iv) on the continuation: first beta_prev == restored beta "
         "(bit-exact), history length and iter continue, every continued iteration replays bit-for-bit in the Float model, the schedule never "
         "decreases, and for path/load the resumed schedule equals the uninterrupted one bit-for-bit; non-trivial = the continuation ran >= 1 iteration. "
+        "(x) late-history: the REAL Reweighter.run (two consecutive steps, a batch committed in between) on real StateManager histories that are "
+        "steep in beta near the posterior and were stored at beta = 1 - delta, delta in {0.25..3} x BETA_TOLERANCE (inside the last tolerance "
+        "window of the schedule, or just outside so that the first step moves into it), both modes; every oracle call observed and replayed "
+        "bit-for-bit in the Float model; the decision generators (i) also place beta_prev strictly inside (1 - BETA_TOLERANCE, 1) with the ESS at "
+        "1 below the target (8 % of the tables). The injected compute_logw_and_logz of (i) serves a genuine log-weight vector whose ESS is the "
+        "table's ESS at that beta, so code that derives weights from it directly runs on the same table; an exception raised on the stubbed "
+        "environment (other than the oracle's call budget) is a correspondence abort, never a failing input. "
         "(ix) translator G10 regenerates every decision expression, literal and the statement skeleton of reweight.py into Gen/ReweightSrc.lean; "
         "Props/C05Source.lean proves by rfl (for every scalar type, Float included) that Model.Reweight is built from them.")
 MODELLED = ["numpy/IEEE: the model is executed at Float with the same operations in the same order (bit-exact regime); theorems are over exact reals",
@@ -117,6 +124,27 @@ class TableOracle:
         return np.array([1.0, float(j)]), self.ess[i], self.met[i]
 
 
+def _logw_with_ess(e):
+    """a log-weight vector whose weights exp(logw - max) have effective sample size e (to rounding): K ones and one entry f in
+       [0, 1) with (K + f)^2 / (K + f^2) = e.  An ESS outside [1, 1e5] (or non-finite) cannot be the ESS of a weight vector of
+       manageable size: a single weight (ESS 1) is served then, and the case cannot be judged through this route."""
+    e = float(e)
+    if not (math.isfinite(e) and 1.0 <= e <= 1e5):
+        return np.zeros(1)
+    k = int(math.floor(e))
+    if e == k:
+        return np.zeros(k)
+    # (1 - e) f^2 + 2 k f + (k^2 - e k) = 0, root in [0, 1)
+    a, b, c = 1.0 - e, 2.0 * k, float(k) * k - e * k
+    disc = max(b * b - 4.0 * a * c, 0.0)
+    f = (-b + math.sqrt(disc)) / (2.0 * a)
+    if not (0.0 < f < 1.0):
+        f = (-b - math.sqrt(disc)) / (2.0 * a)
+    if not (0.0 < f < 1.0):
+        return np.zeros(k)
+    return np.log(np.array([1.0] * k + [f]))
+
+
 def _run_table(case):
     """run the REAL Reweighter.run() on the table oracle of `case`; returns the observable effect"""
     from tempest.state_manager import StateManager
@@ -143,10 +171,18 @@ def _run_table(case):
     orc = TableOracle([_dec(rg, k) for k in case["knots"]], [_dec(rg, e) for e in case["ess"]],
                       [_dec(rg, m) for m in case["met"]])
     zcalls = []
+    zweights = []      # (beta, normalised weights) of every log-weight vector the stub handed out
 
     def zfn(beta, normalize=True):
+        # the second result is the evidence (here: beta itself, so that the recorded logz names the temperature it was computed
+        # for); the FIRST result is a genuine log-weight vector whose ESS is the table's ESS at beta, so that code which derives
+        # weights / ESS from compute_logw_and_logz directly — another evaluation route than _compute_metric_and_weights —
+        # runs on the same table instead of crashing on a placeholder
         zcalls.append(float(beta))
-        return None, float(beta)
+        lw = _logw_with_ess(orc.ess[orc.index(beta)])
+        w = np.exp(lw - np.max(lw))
+        zweights.append((float(beta), w / np.sum(w)))
+        return lw, float(beta)
     rw._compute_metric_and_weights = orc
     sm.compute_logw_and_logz = zfn
     try:
@@ -154,19 +190,25 @@ def _run_table(case):
             warnings.simplefilter("ignore")
             w = rw.run()
     except Exception as e:  # noqa
-        return {"error": f"{type(e).__name__}: {e}", "calls": list(orc.calls)}
+        # only the oracle's own call budget says something about the code under test (a search loop that does not end);
+        # anything else raised on the STUBBED environment is a correspondence abort: the real code took a route the
+        # injection does not serve.  The property is then judged on real StateManager histories (oracle_history).
+        budget = isinstance(e, RuntimeError) and "oracle call budget exceeded" in str(e)
+        return {"error": f"{type(e).__name__}: {e}", "calls": list(orc.calls), "harness_abort": not budget}
     w = np.asarray(w, dtype=float)
-    if not orc.calls:
+    ztag = [b for b, wz in zweights if wz.shape == w.shape and bool(np.allclose(w, wz, rtol=1e-12, atol=0))]
+    if not orc.calls and not zcalls:
         tag = f"U{len(w)}" if len(w) == n and bool(np.all(w == 1.0 / n)) else f"?{w.tolist()[:4]}"
-    elif w.shape == (2,) and w[0] > 0:
-        j = int(round(w[1] / w[0]))
-        ok = 1 <= j <= len(orc.calls) and abs(w[1] / w[0] - j) < 1e-6 and abs(w.sum() - 1.0) < 1e-12
-        tag = _canon(orc.calls[j - 1]) if ok else f"?{w.tolist()}"
+    elif w.shape == (2,) and w[0] > 0 and orc.calls and abs(w[1] / w[0] - round(w[1] / w[0])) < 1e-6 \
+            and 1 <= int(round(w[1] / w[0])) <= len(orc.calls) and abs(w.sum() - 1.0) < 1e-12 and not ztag:
+        tag = _canon(orc.calls[int(round(w[1] / w[0])) - 1])
+    elif ztag:
+        tag = _canon(ztag[-1])           # weights derived from the log-weights served for that beta (the other route)
     else:
         tag = f"?{w.tolist()[:4]}"
     return {"beta": _canon(sm.get_current("beta")), "ess": _canon(sm.get_current("ess")), "logz": _canon(sm.get_current("logz")),
             "wtag": tag, "calls": [_canon(b) for b in orc.calls], "zcalls": [_canon(b) for b in zcalls],
-            "iter": sm.get_current("iter")}
+            "iter": sm.get_current("iter"), "z_route": bool(ztag)}
 
 
 def _line(case):
@@ -229,6 +271,18 @@ def _gen_Q(rng):
         met = [vv + Fraction(rng.choice([0, 0, 1, -1]), 64) for _ in range(K + 1)]
     else:
         met = [max(Fraction(0), vv + Fraction(rng.randint(-8, 8), 16)) for _ in range(K + 1)]
+    if rng.random() < 0.08:
+        # the last BETA_TOLERANCE of the schedule: beta_prev strictly inside (1 - tolB, 1), the ESS at 1 below the target and
+        # (mostly) the ESS at beta_prev not below it — a correct step may stay, or advance only to where ESS >= target
+        if not knots or knots[-1] != 1:
+            knots.append(Fraction(1))
+            ess.append(ess[-1])
+            met.append(met[-1])
+            K = len(knots)
+        prev = 1 - tolB / 2 ** rng.choice([1, 2, 3])
+        ess[-1] = target - step * rng.randint(1, 3)
+        if rng.random() < 0.8:
+            ess[sum(1 for k in knots if k <= prev)] = target + step * rng.randint(0, 2)
     enc = frac2s
     return {"regime": "Q", "mode": mode, "empty": False, "prev": enc(prev), "ratio": enc(ratio), "n": n,
             "vv": enc(vv) if mode == "dyn" else None, "tolE": enc(tolE), "tolB": enc(tolB),
@@ -292,6 +346,18 @@ def _gen_F(rng, allow_nonfinite=True):
             # a NaN ESS at beta_prev: the only way into the ESS-mode call of _find_beta_bisection (dead code over the reals:
             # theorems C05_ess_bisection_unreachable / C05_ieee_ess_floor / C05_nan_ess_reaches_bisection)
             ess[sum(1 for k in knots if k <= prev)] = math.nan
+    if rng.random() < 0.08:
+        # the last BETA_TOLERANCE of the schedule (see _gen_Q)
+        if not knots or knots[-1] != 1.0:
+            knots.append(1.0)
+            ess.append(ess[-1])
+            met.append(met[-1])
+            K = len(knots)
+        prev = 1.0 - tolB * rng.choice([0.5, 0.25, 0.75, 0.999, 1e-3, rng.random()])
+        if prev < 1.0:
+            ess[-1] = target * rng.choice([0.2, 0.9, 0.999])
+            if rng.random() < 0.8:
+                ess[sum(1 for k in knots if k <= prev)] = target * rng.choice([1.0, 1.001, 1.5])
     enc = f2hex
     return {"regime": "F", "mode": mode, "empty": False, "prev": enc(prev), "ratio": enc(ratio), "n": n,
             "vv": enc(vv) if mode == "dyn" else None, "tolE": enc(tolE), "tolB": enc(tolB),
@@ -334,6 +400,8 @@ def _corr_decision(tier, drv, regime):
             c.count("tables_with_nonfinite_entries")
         if model["beta"] != _canon_tok(regime, cs["prev"]) and model["branch"] != "firstIter":
             c.count("beta_advanced")
+        if 0 < 1 - _dec(regime, cs["prev"]) < _dec(regime, cs["tolB"]):
+            c.count("shape:beta_prev_within_BETA_TOLERANCE_of_1")
         if not _same(impl, model):
             c.disagree(input=line, impl=impl, model=model, case=cs)
         c.sample({"op": line, "impl": impl, "model": ans}, cap=2)
@@ -883,6 +951,106 @@ def oracle_resume(cfg):
     return _resume_problem(_resume_run(cfg))
 
 
+# ================================================================== (iv-c) the last BETA_TOLERANCE of the schedule, real StateManager histories
+def _late_params(rng):
+    """a pool that is steep in beta near the posterior: warm-up batches of very low likelihood, one early level, then several
+       batches stored at beta = 1 - delta (delta around BETA_TOLERANCE: inside the last tolerance window, or just outside so that
+       the first step moves into it) with log-likelihoods spread over [0, H]; evidence values computed by the StateManager itself"""
+    return {"late_seed": rng.randrange(2 ** 31), "vv": rng.choice([None, None, None, 0.5, 0.1]), "ratio": rng.choice([2.0, 2.0, 1.0, 3.0]),
+            "n": rng.choice([32, 64]), "delta": rng.choice([0.25, 0.5, 0.75, 0.9, 1.5, 1.5, 3.0]) * 1e-4,
+            "H": rng.choice([2e4, 7.5e4, 7.5e4, 2e5]), "late": rng.choice([3, 6, 6, 8]), "steps": 2}
+
+
+def _late_state(p):
+    """the StateManager of `_late_params` (public API only: update_current / commit_current_to_history)"""
+    from tempest.state_manager import StateManager
+    rs = np.random.RandomState(p["late_seed"])
+    n = p["n"]
+    grid = (np.arange(n) + 0.5) / n
+    sm = StateManager(n_dim=2)
+    plan = [(0.0, -5.0e5 - 1.0e5 * grid), (0.0, -5.0e5 - 1.0e5 * grid[::-1]), (0.5, -2.0e4 - 1.0e4 * grid)]
+    plan += [(1.0 - p["delta"], p["H"] * np.sort(rs.rand(n)) if k % 2 else p["H"] * grid) for k in range(p["late"])]
+    for it, (b, ls) in enumerate(plan, start=1):
+        z = 0.0 if sm.get_history_length() == 0 else float(sm.compute_logw_and_logz(b)[1])
+        u = rs.rand(n, 2)
+        sm.update_current({"u": u, "x": u.copy(), "logl": np.asarray(ls, dtype=float), "beta": float(b), "logz": z, "ess": float(n),
+                           "iter": it, "calls": it * n, "steps": 1, "acceptance": 1.0, "efficiency": 1.0})
+        sm.commit_current_to_history()
+    return sm, rs, grid
+
+
+def _late_run(p, instrument=False):
+    """`steps` calls of the REAL Reweighter.run() on that state; after each call the sampler's mutate + commit is imitated (a new batch
+       at the temperature the reweighter wrote).  Returns (per-step observations, its-or-None, reweighter, error)"""
+    import types
+    from tempest.steps.reweight import Reweighter
+    from tempest import config
+    sm, rs, grid = _late_state(p)
+    rw = Reweighter(sm, None, p["n"], p["ratio"], p["vv"], ESS_TOLERANCE=config.ESS_TOLERANCE, BETA_TOLERANCE=config.BETA_TOLERANCE)
+    core = types.SimpleNamespace(reweighter=rw, state=sm, trainer=types.SimpleNamespace(run=lambda w: None),
+                                 resampler=types.SimpleNamespace(run=lambda w: None))
+    its = _instrument(types.SimpleNamespace(_core=core), 10) if instrument else None
+    obs = []
+    for _k in range(p["steps"]):
+        prev = float(sm.get_current("beta"))
+        hist = _hist_arrays(sm)
+        try:
+            with warnings.catch_warnings(), _time_limit(RUN_SECONDS):
+                warnings.simplefilter("ignore")
+                w = rw.run()
+                core.trainer.run(w)
+                core.resampler.run(w)
+        except Exception as e:  # noqa
+            return obs, its, rw, f"Reweighter.run raised {type(e).__name__}: {e}"
+        obs.append({"hist": hist, "prev": prev, "beta": sm.get_current("beta"), "ess": sm.get_current("ess"),
+                    "logz": sm.get_current("logz"), "weights": np.array(w, dtype=float, copy=True)})
+        u = rs.rand(p["n"], 2)
+        sm.update_current({"u": u, "x": u.copy(), "logl": p["H"] * grid, "calls": int(sm.get_current("calls")) + p["n"]})
+        sm.commit_current_to_history()
+    return obs, its, rw, None
+
+
+def oracle_late(p):
+    """C05 on those steps (the property's own oracle: independent recomputation of weights / ESS / evidence from the history)"""
+    from tempest import config
+    obs, _its, _rw, err = _late_run(p)
+    for k, o in enumerate(obs):
+        betas, zs, batches = o["hist"]
+        msg = _check_iteration(betas, zs, batches, o["prev"], o["beta"], o["ess"], o["logz"], o["weights"], p["ratio"] * p["n"], p["vv"],
+                               config.BETA_TOLERANCE)
+        if msg:
+            return f"step {k + 1} (beta_prev = {o['prev']!r}, 1 - beta_prev = {1.0 - o['prev']:.3e}): {msg}"
+    return err
+
+
+def _corr_late(tier, drv):
+    c = Corr("late-history", "bit-exact (Float model fed the oracle values of the real Reweighter on real StateManager histories)")
+    rng = common.rng_for("C05.late")
+    for _ in range(10 if tier == "quick" else 120):
+        p = _late_params(rng)
+        obs, its, rw, err = _late_run(p, instrument=True)
+        cfg = {"vv": p["vv"], "late": p}
+        c.count("mode:" + ("dyn" if p["vv"] is not None else "ess"))
+        if err:
+            c.case(("late", p), False)
+            c.disagree(input=p, impl=err, model="-", late_case=p)
+            continue
+        for o in obs:
+            if 0 < 1.0 - o["prev"] < rw.BETA_TOLERANCE:
+                c.count("steps_started_within_BETA_TOLERANCE_of_1")
+            if o["beta"] != o["prev"]:
+                c.count("steps_that_advanced")
+            if o["beta"] == 1.0:
+                c.count("steps_that_reached_1")
+        n0 = len(c.disagreements)
+        _compare_iterations(c, cfg, its, rw, drv, first_is_fresh=False)
+        for dgr in c.disagreements[n0:]:
+            dgr["late_case"] = p
+            dgr.pop("run_cfg", None)
+        c.sample({"params": p, "steps": [(o["prev"], o["beta"], float(o["ess"])) for o in obs]}, cap=3)
+    return c
+
+
 # ================================================================== (vii) the closed-loop model (tie of Props/C05Closed, C05Resume)
 CL_CONFIGS = [dict(kernel="tpcn", resample="mult", clustering=False, vv=0.5), dict(kernel="rwm", resample="syst", clustering=False, vv=0.05),
               dict(kernel="tpcn", resample="syst", clustering=True, vv=0.1), dict(kernel="rwm", resample="mult", clustering=False, vv=None),
@@ -1121,6 +1289,8 @@ def oracle_direct(cs):
         return None
     r = _run_direct(cs)
     if "error" in r:
+        if "oracle call budget exceeded" not in r["error"]:
+            return None     # raised on the stubbed environment: a correspondence abort, not a verdict on the property
         return f"{cs['kind']} raised {r['error']} after {len(r['calls'])} oracle calls"
     beta = hex2f(r["beta"]) if r["beta"] != "nan" else math.nan
     knots = [_dec(rg, k) for k in cs["knots"]]
@@ -1247,7 +1417,7 @@ def correspond(tier):
     drv = common.Driver()
     out = [_corr_constants(), _corr_decision(tier, drv, "Q"), _corr_decision(tier, drv, "F"),
            _corr_direct(tier, drv, "Q"), _corr_direct(tier, drv, "F"), _corr_oracle(tier), _corr_runs(tier, drv),
-           _corr_resume(tier, drv), _corr_pipeline(tier, drv), _corr_closed(tier, drv)]
+           _corr_resume(tier, drv), _corr_late(tier, drv), _corr_pipeline(tier, drv), _corr_closed(tier, drv)]
     return out
 
 
@@ -1286,6 +1456,8 @@ def oracle_table(case):
         return None
     r = _run_table(case)
     if "error" in r:
+        if r.get("harness_abort"):
+            return None     # raised on the stubbed environment: a correspondence abort, not a verdict on the property
         return f"Reweighter.run raised {r['error']} after {len(r['calls'])} oracle calls"
     prev = _dec(rg, case["prev"])
     n = int(case["n"])
@@ -1313,7 +1485,13 @@ def oracle_table(case):
     if r["wtag"] != r["beta"]:
         w_at = r["wtag"] if r["wtag"].startswith("?") else hex2f(r["wtag"])
         return f"returned weights were computed at beta={w_at!r} but beta={beta!r} was recorded"
-    if r["ess"] != _canon(essf(beta)):
+    if r.get("z_route"):
+        # the code derived weights / ESS from compute_logw_and_logz itself: the served log-weights reproduce the table's ESS only
+        # to rounding, and only for table values a weight vector can have
+        e_tab, e_rec = essf(beta), (hex2f(r["ess"]) if r["ess"] != "nan" else math.nan)
+        if 1.0 <= e_tab <= 1e5 and not (abs(e_rec - e_tab) <= 1e-9 * e_tab):
+            return f"recorded ess {e_rec!r} is not the ESS at the recorded beta {beta!r} ({e_tab!r})"
+    elif r["ess"] != _canon(essf(beta)):
         return f"recorded ess {hex2f(r['ess']) if r['ess'] != 'nan' else 'nan'!r} is not the ESS at the recorded beta {beta!r} ({essf(beta)!r})"
     if r["zcalls"] != [r["beta"]] or r["logz"] != r["beta"]:
         return f"logz was computed for beta in {[hex2f(z) for z in r['zcalls']]}, recorded beta is {beta!r}"
@@ -1418,8 +1596,10 @@ def search(tier, hints):
     def add(f):
         found.append(f)
         return len(found) >= 5
-    # 1. the disagreeing inputs themselves
-    for h in hints:
+    # 1. the disagreeing inputs themselves — those judged on the unstubbed real code (real StateManager histories, real runs) first
+    def _prio(h):
+        return 0 if "late_case" in h else 1 if any(k in h for k in ("hist", "run_cfg", "resume_cfg", "cl_cfg")) else 2
+    for h in sorted(hints, key=_prio):
         try:
             if "case" in h and isinstance(h["case"], dict):
                 msg = oracle_table(h["case"])
@@ -1435,6 +1615,10 @@ def search(tier, hints):
                     msg = oracle_history(hist, d, h.get("vv"), ratio, n)
                     if msg and add(_fail("history", msg, hist=h["hist"], vv=h.get("vv"), ratio=ratio, n=n)):
                         return found
+            elif "late_case" in h:
+                msg = oracle_late(h["late_case"])
+                if msg and add(_fail("late", msg, late_case=h["late_case"])):
+                    return found
             elif "resume_cfg" in h:
                 msg = oracle_resume(h["resume_cfg"])
                 if msg and add(_fail("resume", msg, resume_cfg=h["resume_cfg"])):
@@ -1473,6 +1657,14 @@ def search(tier, hints):
             return found
     if found:
         return found
+    # 3b. the last BETA_TOLERANCE of the schedule on real StateManager histories
+    for i in range(40 if tier == "quick" else 400):
+        p = _late_params(rng)
+        msg = oracle_late(p)
+        if msg and add(_fail("late", msg, late_case=p)):
+            return found
+    if found:
+        return found
     # 4. real runs
     for cfg in RUN_CONFIGS_QUICK:
         msg = oracle_run(cfg)
@@ -1503,6 +1695,8 @@ def replay(obj):
         msg = oracle_history(hist, d, f.get("vv"), f["ratio"], f["n"])
     elif kind == "run":
         msg = oracle_run(f["run_cfg"])
+    elif kind == "late":
+        msg = oracle_late(f["late_case"])
     elif kind == "resume":
         msg = oracle_resume(f["resume_cfg"])
     elif kind == "closed":
